@@ -3,7 +3,7 @@ From Coq Require Import List String.
 From VQ.Gen Require Import p_decode.
 Import ListNotations.
 Open Scope string_scope.
-Lemma pin_p_decode : p_decode =
+Definition pinned_p_decode : list string :=
   ["VectorQuantize.get_codes_from_indices:codebook = self.codebook";
    "VectorQuantize.get_codes_from_indices:is_multiheaded = codebook.ndim > 2";
    "VectorQuantize.get_codes_from_indices:if not is_multiheaded:     codes = codebook[indices]     if self.heads > 1:         codes = rearrange(codes, '... h d -> ... (h d)') else:     indices, unpack_one = pack_one(indices, 'b * h')     indices = rearrange(indices, 'b n h -> b h n')     indices = repeat(indices, 'b h n -> b h n d', d=codebook.shape[-1])     codebook = repeat(codebook, 'h n d -> b h n d', b=indices.shape[0])     codes = codebook.gather(2, indices)     codes = rearrange(codes, 'b h n d -> b n (h d)')     codes = unpack_one(codes, 'b * d')";
@@ -42,4 +42,5 @@ Lemma pin_p_decode : p_decode =
    "LatentQuantize.indices_to_codes:if project_out:     codes = self.project_out(codes)";
    "LatentQuantize.indices_to_codes:codes = rearrange(codes, 'b ... d -> b d ...')";
    "LatentQuantize.indices_to_codes:return codes"].
+Lemma pin_p_decode : p_decode = pinned_p_decode.
 Proof. reflexivity. Qed.
